@@ -4,6 +4,7 @@ package sym
 
 import (
 	"fmt"
+	"os"
 	"go/types"
 	"sort"
 	"strings"
@@ -316,6 +317,9 @@ func (m *Machine) termValue(t *Term) (uint64, bool) {
 	}
 	txt, err := s.readSexp()
 	if err != nil {
+		if os.Getenv("HCSYM_DEBUG") != "" {
+			fmt.Fprintln(os.Stderr, "termValue error:", err, "for", t.ref(), t.body())
+		}
 		return 0, false
 	}
 	toks := tokenize(txt)
@@ -347,6 +351,7 @@ func (m *Machine) concretize(t *Term, why string) int64 {
 	var vals []int64
 	var excl []*Term
 	for {
+		m.solver.Define(t)
 		v := m.check(excl...)
 		if v == Unsat {
 			break
